@@ -241,9 +241,6 @@ func Run(r *rt.Run) error {
 		if sc.Pipe == "loopback" && strings.HasPrefix(sc.Stall, "run:") && sc.N > 1000 && apiKind(sc.Stop) == "task" {
 			n = 1 // the known deadlock: costs a few seconds per attempt and leaves a dead TaskMaster behind
 		}
-		if sc.Pipe == "udf" && sc.Stall == "run:mirror" {
-			n = 1 // the known nil dereference
-		}
 		for i := 0; i < n; i++ {
 			ta := time.Now()
 			o, a, err := runAttempt(sc, post, stdDeadlines)
